@@ -93,23 +93,27 @@ class KeyGen:
             return ("i:%d" if self.kind == 0 else "u:%d") % v
         return self.key()
 
+def gojson(o):
+    """json text as Go's encoding/json writes it: compact, and <, >, & escaped as \\u003c, \\u003e, \\u0026"""
+    return json.dumps(o, separators=(",", ":")).replace("<", "\\u003c").replace(">", "\\u003e").replace("&", "\\u0026")
+
 def gen_val(rng, vt):
     if vt == "int":
         return hx(str(rng.randint(-5, 50)).encode())
     if vt == "str":
-        return hx(json.dumps("".join(rng.choice("abc xyz") for _ in range(rng.randint(0, 4)))).encode())
+        return hx(gojson("".join(rng.choice("abc xyz<>&'") for _ in range(rng.randint(0, 4)))).encode())
     if vt == "ints":
         return hx(json.dumps([rng.randint(0, 9) for _ in range(rng.randint(0, 3))], separators=(",", ":")).encode())
     if vt == "pst":   # struct {A int; P *string `json:"p,omitempty"`}: comparable, holds a pointer
         d = {"A": rng.randint(0, 5)}
         if rng.random() < 0.7:
-            d["p"] = "".join(rng.choice("abc") for _ in range(rng.randint(0, 2)))
-        return hx(json.dumps(d, separators=(",", ":")).encode())
+            d["p"] = "".join(rng.choice("abc<&") for _ in range(rng.randint(0, 2)))
+        return hx(gojson(d).encode())
     c = rng.random()
     if c < 0.4:
         return hx(str(rng.randint(0, 99)).encode())
     if c < 0.6:
-        return hx(json.dumps("v%d" % rng.randint(0, 9)).encode())
+        return hx(gojson(rng.choice(["v%d", "v%d", "<%d>", "a&%d"]) % rng.randint(0, 9)).encode())
     if c < 0.8:
         return hx(json.dumps([rng.randint(0, 3)] * rng.randint(0, 2), separators=(",", ":")).encode())
     return hx(json.dumps({"a": rng.randint(0, 3)}, separators=(",", ":")).encode())
